@@ -16,7 +16,8 @@ import (
 type DeletionReport struct {
 	Deleted  []string // "kind name @file:line"
 	Skipped  []string // reported objects this deleter has no rule for (left in place)
-	Errors   []string // type errors of the remaining package (other than unused imports)
+	Errors   []string // type errors of the remaining package (other than unused imports and WriteOnly)
+	WriteOnly []string // "undefined: x" where the remaining identifier is only assigned to (x = v, x++): rule 9.7
 	Sources  []SrcFile
 }
 
@@ -250,6 +251,12 @@ func (p *Pkg) DeleteReported() DeletionReport {
 			rep.Skipped = append(rep.Skipped, fmt.Sprintf("%s %s @%s:%d", o.Kind, o.Name, filepath.Base(o.Position.Filename), o.Position.Line))
 		}
 	}
+	writePos := map[string]bool{}
+	for _, r := range p.Refs() {
+		if r.Write {
+			writePos[fmt.Sprintf("%s:%d:%d", r.Pos.Filename, r.Pos.Line, r.Pos.Column)] = true
+		}
+	}
 	conf := types.Config{
 		Importer:  mapImporter(p.Imports),
 		GoVersion: "go1.26",
@@ -257,6 +264,13 @@ func (p *Pkg) DeleteReported() DeletionReport {
 			msg := err.Error()
 			if strings.Contains(msg, "imported and not used") || (strings.Contains(msg, "imported as") && strings.Contains(msg, "and not used")) {
 				return
+			}
+			if te, ok := err.(types.Error); ok && strings.HasPrefix(te.Msg, "undefined: ") {
+				pos := fset.PositionFor(te.Pos, false)
+				if writePos[fmt.Sprintf("%s:%d:%d", pos.Filename, pos.Line, pos.Column)] {
+					rep.WriteOnly = append(rep.WriteOnly, msg)
+					return
+				}
 			}
 			rep.Errors = append(rep.Errors, msg)
 		},
